@@ -58,3 +58,16 @@ Proof.
     + destruct (Hk 0%nat a eq_refl) as (d & -> & Sd & _). exact Sd.
   - intros d c -> [t Ht] _. destruct c; [reflexivity|discriminate].
 Qed.
+
+(* the hypotheses of C11_restore_invisible: one content per id, 19-digit timestamps *)
+Definition PSr (id d : bytes) (tm : Z) : Prop :=
+  id = id1 /\ d = d1 /\ (tm = 1700000000000000005 \/ tm = 1700000000000000007).
+
+Example ex_restore_hyps : C11_hyps toyH U2 PSr /\
+  (forall d tm, PSr id1 d tm -> d = d1 /\ 10 ^ 18 <= tm < 2 * 10 ^ 18) /\ U2 d1 /\ no_hybrid toyH U2.
+Proof.
+  split; [|split; [|split; [left; reflexivity|apply ex_no_hybrid2]]].
+  - split; [apply toyH_len|]. split; [apply ex_inj|].
+    intros id d tm (-> & -> & [-> | ->]); (split; [left; reflexivity|]); (split; [reflexivity|]); vm_compute; intuition discriminate.
+  - intros d tm (_ & -> & [-> | ->]); split; try reflexivity; vm_compute; intuition discriminate.
+Qed.
